@@ -9,6 +9,7 @@ import (
 	"os"
 	"path/filepath"
 	"regexp"
+	"runtime"
 	"runtime/debug"
 	"sort"
 	"strings"
@@ -66,8 +67,21 @@ func c05App(ptrs *[]string) fasthttp.RequestHandler {
 
 // c05AppRec: rec is told which context object serves each request
 func c05AppRec(rec func(c fiber.Ctx)) fasthttp.RequestHandler {
-	app := fiber.New(fiber.Config{Views: dumpViews{}})
+	app := fiber.New(fiber.Config{Views: dumpViews{}, PassLocalsToViews: true})
 	mark := func(c fiber.Ctx) string { rec(c); return c.Get("X-Marker") }
+	// a middleware that still works after the handler returned: the response is not written before it is done
+	app.Use("/jsonp", func(c fiber.Ctx) error {
+		err := c.Next()
+		for i := 0; i < 3; i++ {
+			runtime.Gosched()
+		}
+		return err
+	})
+	app.Get("/jsonp/:name", func(c fiber.Ctx) error { rec(c); return c.JSONP(fiber.Map{"name": c.Params("name")}) })
+	// views rendered without bind data of their own: what ViewBind / Locals of THIS request provide, nothing else
+	app.Get("/viewrender", func(c fiber.Ctx) error { m := mark(c); _ = c.ViewBind(fiber.Map{"vb": m}); return c.Render("t", nil) })
+	app.Get("/localsrender", func(c fiber.Ctx) error { m := mark(c); c.Locals("k", m); return c.Render("t", nil) })
+	app.Get("/rendernil", func(c fiber.Ctx) error { rec(c); return c.Render("t", nil) })
 	app.Get("/plain", func(c fiber.Ctx) error { mark(c); return c.SendString("ok") })
 	app.Get("/p/:a/:b", func(c fiber.Ctx) error { mark(c); return c.SendString(c.Params("a") + c.Params("b")) })
 	app.Get("/locals", func(c fiber.Ctx) error { m := mark(c); c.Locals("k", m); return c.SendString("ok") })
@@ -164,7 +178,9 @@ func c05Request(kind, m string) string {
 	switch kind {
 	case "params":
 		line = "GET /p/" + m + "a/" + m + "b HTTP/1.1"
-	case "locals", "viewbind", "redirectwith", "resphdr", "baseurl", "error":
+	case "jsonp":
+		line = "GET /jsonp/" + m + " HTTP/1.1"
+	case "locals", "viewbind", "redirectwith", "resphdr", "baseurl", "error", "viewrender", "localsrender":
 		line = "GET /" + kind + " HTTP/1.1"
 	case "withinput":
 		line = "GET /withinput?in" + m + "=val" + m + " HTTP/1.1"
@@ -205,9 +221,15 @@ func c05Probe(kind string) string {
 		return "GET /opt HTTP/1.1\r\nHost: p.test\r\n\r\n"
 	case "sendfile":
 		return "GET /sf-b HTTP/1.1\r\nHost: p.test\r\n\r\n"
+	case "rendernil":
+		return "GET /rendernil HTTP/1.1\r\nHost: p.test\r\n\r\n"
+	case "jsonp":
+		return "GET /jsonp/P HTTP/1.1\r\nHost: p.test\r\n\r\n"
 	}
 	return "GET /probe HTTP/1.1\r\nHost: p.test\r\n\r\n"
 }
+
+var c05Probes = []string{"plain", "params", "flashpartial", "flashshort", "bindbad", "star", "optparam", "sendfile", "rendernil", "jsonp"}
 
 var foreignMarker = regexp.MustCompile(`R[0-9]`)
 
@@ -228,7 +250,7 @@ func TestC05(t *testing.T) {
 	old := debug.SetGCPercent(-1) // a garbage collection empties sync.Pool: the history must stay on one pooled context
 	defer debug.SetGCPercent(old)
 	baseline := map[string]string{}
-	for _, p := range []string{"plain", "params", "flashpartial", "flashshort", "bindbad", "star", "optparam", "sendfile"} {
+	for _, p := range c05Probes {
 		var ptrs []string
 		h := c05App(&ptrs)
 		rc := &fasthttp.RequestCtx{}
@@ -306,7 +328,7 @@ func TestC05Conc(t *testing.T) {
 	o := newOut(t)
 	defer o.close()
 	baseline := map[string]string{}
-	for _, p := range []string{"plain", "params", "flashpartial", "flashshort", "bindbad", "star", "optparam", "sendfile"} {
+	for _, p := range c05Probes {
 		var ptrs []string
 		h := c05App(&ptrs)
 		rc := &fasthttp.RequestCtx{}
